@@ -111,14 +111,16 @@ def audio_extent(F, S):
         out.append(bad("R-COPYEXT", inst, rh.loc(rh.body), rh.qn, "dataLength_i is what FindChunk('data') returned for input i, the last thing done with that reader", "shape not found"))
     fc = F.fn(CLM + "::FindChunk", nparams=2)
     # the walk goes on exactly while the cursor is inside the file: a chunk header at any position < length is examined
-    loops = [nd for nd in fc.nodes if nd["k"] in ("DoStmt", "WhileStmt")]
+    loops = [nd for nd in fc.nodes if nd["k"] in ("DoStmt", "WhileStmt", "ForStmt")]
     inst = CLM + "::FindChunk#walk-condition"
     req = "the chunk walk continues while currentPosition < file length (so a data chunk anywhere in the file, even empty and last, is found)"
     good = False
     detail = "loop not found"
     if len(loops) == 1:
-        ct = c05.resolve(fc.term(loops[0]["cond"]), c05.alias_defs(fc))
-        detail = fmt_term(ct)
+        from ..through import continue_conditions
+        cc = [c05.resolve(t, c05.alias_defs(fc)) for t in continue_conditions(fc, loops[0])]
+        ct = cc[0] if len(cc) == 1 else ("?",)
+        detail = " && ".join(fmt_term(t) for t in cc) or "none"
         # the cursor is whichever local the loop body seeks the reader to
         body = fc.subtree(loops[0]["body"])
         seeks = [fc.n(x) for x in body if fc.n(x)["k"] == "CXXMemberCallExpr" and fc.n(x).get("fname") == "Seek" and fc.n(x).get("args")]
